@@ -526,6 +526,28 @@ func (r *vsRunner) vcCheckImage(img vcImage, o *vcOracle, inProgress *vsStep, de
 				}
 			}
 		}
+		// every durable sample must also be found by a POINT read (seek by time through the
+		// recovered index, not the linear traversal of the full read above)
+		for s := range o.must[ch] {
+			if dr, ok := delRange[ch]; ok && dr[0] <= s.T && s.T < dr[1] {
+				continue
+			}
+			if ch != "I" && !got[s] {
+				continue
+			}
+			ts := r.c.ts(s.T)
+			pf, err := db.Read(context.Background(), telem.TimeRange{Start: ts, End: ts + 1}, key)
+			n := 0
+			if err == nil {
+				for _, sr := range pf.SeriesSlice() {
+					n += int(sr.Len())
+				}
+			}
+			if err != nil || n != 1 {
+				return &vcFinding{Kind: "durable data lost", Exp: fmt.Sprintf("channel %s sample t=%d found by a point read (the full read returns it)", ch, s.T),
+					Act: fmt.Sprintf("point read returned %d samples (err %v)", n, err)}
+			}
+		}
 	}
 	return nil
 }
@@ -719,6 +741,14 @@ func vcReplay(idx int, hist []vsStep, c vsConc, maxT int, stats *vcCrashStats, m
 				stats.images.Add(1)
 				if ti < len(cands)-1 {
 					stats.torn.Add(1)
+				}
+				if os.Getenv("VERIF_DEBUG") == "2" {
+					b := cand.Files[strconv.Itoa(int(vsKeyI))+"/index.domain"]
+					fmt.Printf("IMG op %d %q I/index:", opIdx, cand.What)
+					for i := 0; i+26 <= len(b); i += 26 {
+						fmt.Printf(" [%s,%s) f%d;", r.c.abs(telem.TimeStamp(telem.ByteOrder.Uint64(b[i:i+8]))), r.c.abs(telem.TimeStamp(telem.ByteOrder.Uint64(b[i+8:i+16]))), telem.ByteOrder.Uint16(b[i+16:i+18]))
+					}
+					fmt.Println()
 				}
 				if f := r.vcCheckImage(cand, o, st, delRange); f != nil {
 					f.Op = opIdx
